@@ -233,6 +233,20 @@ def prop_vectors(spec, rec):
         prices.add(want)
         if dt.date() != start.date():
             crossed_midnight = True
+    # the same instant written in another zone is another wall clock: the SAME tariff object must
+    # answer for that one (vector and single lookup)
+    if spec.get("tz") and n:
+        from datetime import timezone
+
+        a0 = _aware(start, spec["tz"])
+        for hours in (-4, 5.5):
+            other = a0.astimezone(timezone(timedelta(hours=hours)))
+            naive2 = other.replace(tzinfo=None)
+            vec2 = tariff.get_tariffs(other, n, period)
+            for k in range(n):
+                dt2 = naive2 + timedelta(seconds=k * period * 60)
+                w2, _, _ = ref(name).lookup(dt2)
+                require(vec2[k] == w2, "vector_entry_same_instant_other_zone", lambda: "%s: get_tariffs(%s, n=%d, period=%r)[%d] = %r (asked after %s on the same object), lookup at wall clock %s is %r" % (name, other, n, period, k, vec2[k], a0, dt2, w2))
     # a fresh object answers the same as the used one
     fresh = TimeOfUseTariff(name)
     for k in (0, n // 2, n - 1):
@@ -399,6 +413,8 @@ def prop_interface(spec, rec):
         labels.add("energy_delivered")
     if r.lookup(at(R.shape[1] - 1))[1] != r.lookup(start)[1]:
         labels.add("demand_rate_changes_during_sim")
+    if R.shape[1] * period > 31 * 24 * 60:
+        labels.add("run_longer_than_a_month")
     rec.case(spec, labels, nontrivial="price_changes_during_sim" in labels and "queried_after_period_0" in labels)
 
 
@@ -420,13 +436,22 @@ def interface_cases(draw):
         start = (datetime(draw(st.integers(2014, 2033)), m, dd) + timedelta(seconds=draw(st.integers(20 * 3600, 86399)))).strftime("%Y-%m-%dT%H:%M:%S")
         period = draw(st.sampled_from([15, 60]))
         sessions[0]["departure"] = sessions[0]["arrival"] + draw(st.integers(17, 30))
+    mr = draw(st.sampled_from([None, 1, 3]))
+    if draw(st.integers(0, 9)) == 0:
+        # a run of more than a month (several calendar months, one demand charge all the same)
+        period = draw(st.sampled_from([60, 120]))
+        sessions[0]["departure"] = sessions[0]["arrival"] + draw(st.integers(800, 1500)) * (60 // period if period <= 60 else 1) // (period // 60)
+        sessions[0]["energy"] = 2000.0
+        mr = None
+        if draw(st.booleans()):
+            tariff = "pge_a10_tou_aug_2019"
     return {
         "tariff": tariff,
         "start": start,
         "period": period,
         "voltages": [draw(st.sampled_from([120.0, 208.0, 240.0])) for _ in range(nst)],
         "sessions": sessions,
-        "max_recompute": draw(st.sampled_from([None, 1, 3])),
+        "max_recompute": mr,
         "n": draw(st.integers(1, 30)),
         "k": draw(st.integers(0, 40)),
         "pilot": draw(st.sampled_from([8.0, 16.0, 32.0])),
@@ -439,7 +464,7 @@ def subchecks(tier):
     return [
         Exhaustive("calendar_grid", grid_items, prop_grid, exhaustive_in=("thorough",), jobs_quick=8),
         Given("vectors", vector_cases(), prop_vectors, quick=600, thorough=40000, floors={"crosses_midnight": 0.07, "price_changes": 0.08, "aware_vector_across_dst": 0.05}),
-        Given("interface", interface_cases(), prop_interface, quick=150, thorough=8000, floors={"price_changes_during_sim": 0.08, "queried_after_period_0": 0.4, "explicit_other_tariff": 0.263}),
+        Given("interface", interface_cases(), prop_interface, quick=150, thorough=8000, floors={"price_changes_during_sim": 0.08, "queried_after_period_0": 0.4, "explicit_other_tariff": 0.263, "run_longer_than_a_month": 0.03}),
     ]
 
 
